@@ -517,3 +517,13 @@ add("F1b", "break", FACT, "factorize_range_index", "if index.step != 1:", "if in
 add("F1b", "keep", FACT, "factorize_range_index", "    if index.step != 1:\n        codes = codes // index.step\n", "    codes = codes // index.step\n", name="F1b always divided")
 add("S3b", "break", CORE, INIT, "            self._sort = group_keys._sort\n", "            self._sort = sort\n", name="S3b copy takes _sort from the constructor argument")
 add("S3b", "break", CORE, INIT, "            self._group_key_pointers = group_keys._group_key_pointers\n", "            self._group_key_pointers = None\n", name="S3b copy drops the pointer tables of chunk-local codes")
+
+# --------------------------------------------------------------------------------------------- R1 P17 P18 P19 (+ O2 wrapped state)
+add("R1", "break", NB, "_find_first_or_last_n", "    if not forward:\n        out = out[:, ::-1]\n", "", name="R1 backward scan not flipped back")
+add("R1", "keep", NB, "_find_first_or_last_n", "    if not forward:\n        out = out[:, ::-1]\n", "    if not forward:\n        out = np.fliplr(out)\n", name="R1 flip with np.fliplr")
+add("P17", "break", CORE, "GroupBy._get_row_selection", "result = pd.DataFrame(dict(zip(col_names, value_list)), copy=False).iloc[ilocs].set_index(out_index)", "result = pd.DataFrame(np.column_stack([_val_to_numpy(v)[ilocs] for v in value_list]), index=out_index, columns=col_names, copy=False)", name="P17 selected rows assembled through one 2-D block")
+add("P18", "break", NANOPS, "reduce_1d", "list(zip(np.array_split(arr, n_threads)))", "[(arr[i * (len(arr) // n_threads):(i + 1) * (len(arr) // n_threads)],) for i in range(n_threads)]", name="P18 inline floor-division chunks (no local)", accept_error=True)
+add("P18", "break", NANOPS, "reduce_1d", "        chunks = parallel_map(lambda a: _nb_reduce(reduce_func=reduce_func, arr=a, **kwargs), list(zip(np.array_split(arr, n_threads))))\n", "        chunk_len = len(arr) // n_threads\n        chunks = parallel_map(lambda a: _nb_reduce(reduce_func=reduce_func, arr=a, **kwargs), [(arr[i * chunk_len:(i + 1) * chunk_len],) for i in range(n_threads)])\n", name="P18 equal-length chunks drop the tail")
+add("P19", "break", UTIL, "pretty_cut", "    sort_key = np.argsort(numeric_bins)\n    bins = bins[sort_key]\n    numeric_bins = numeric_bins[sort_key]\n", "    bins = np.sort(bins)\n", name="P19 labels sorted, searched edges left in the caller's order")
+add("P19", "keep", UTIL, "pretty_cut", "    sort_key = np.argsort(numeric_bins)\n    bins = bins[sort_key]\n    numeric_bins = numeric_bins[sort_key]\n", "    order = numeric_bins.argsort()\n    bins = bins[order]\n    numeric_bins = numeric_bins[order]\n", name="P19 argsort as a method, key renamed")
+add("O2", "break", CORE, "GroupBy.size", "        return self._apply_gb_reduction(", "        if mask is None and (not transform) and (not margins) and (not observed_only):\n            return pd.Series(self.ikey_count[self._labels_argsort], self.result_index[self._labels_argsort], copy=False)\n        return self._apply_gb_reduction(", name="O2 size hands out a Series over the cached counts")
